@@ -56,6 +56,13 @@ def gen_case(rng, maxlen):
         elif k < 0.75: ops.append(["interface"])
         elif k < 0.95: ops.append(["simulate", rng.choice(["det", "ssa", "safe", "delay", "volume"]), rng.randint(1, 2**31)])
         else: ops.append(["seed", rng.randint(1, 2**31)])
+    # a rule on the species "Lz" that the model has had from its construction (so that adding the rule introduces neither a species
+    # nor a parameter), placed late: the only thing that tells the model to rebuild is create_rule itself  (seeded change S3_C08)
+    if rng.random() < 0.4:
+        pos = rng.randint(max(1, len(ops) - 4), len(ops)); seen = set()
+        for o in ops[:pos]:
+            if o[0] == "reaction": seen |= set(o[1][0]) | set(o[1][1]) | (set(o[1][6]) if len(o[1]) == 8 else set())
+        if seen: ops.insert(pos, ["rule_late", rng.choice(sorted(seen))])
     # make sure every named parameter ends with a value and every species with a count
     ops.append(["set_params", {"kA": 0.3, "kB": 0.15, "kg": 0.6}])
     return {"ops": ops, "seed": rng.randint(1, 2**31)}
@@ -99,7 +106,7 @@ def impl_case(case):
     from bioscrape.simulator import py_simulate_model, ModelCSimInterface, SafeModelCSimInterface
     from bioscrape.random import py_seed_random
     warnings.simplefilter("ignore")
-    M = Model(); ifaces = []; T = np.linspace(0, 2.0, 5); problems = []
+    M = Model(species=["Lz"]); ifaces = []; T = np.linspace(0, 2.0, 5); problems = []
     rx_defs = []; rules = []; created_params = []
     for op in case["ops"]:
         k = op[0]
@@ -113,6 +120,8 @@ def impl_case(case):
                 for nm in _rule_species(op):
                     M._add_species(nm)
                 M.create_rule(*rt); rules.append(rt)
+        elif k == "rule_late":
+            rt = ("assignment", {"equation": "Lz = 2*%s + 1" % op[1]}); M.create_rule(*rt); rules.append(rt)
         elif k == "initialize":
             try: M.py_initialize()
             except ValueError: pass        # a parameter still without a value: the history goes on
@@ -145,16 +154,25 @@ def impl_case(case):
     fresh = Model(species=order, reactions=[tuple(x if not isinstance(x, dict) else dict(x) for x in r) for r in rx_defs],
                   parameters=[(k, v) for k, v in pd.items() if not k.startswith("DummyVar")],
                   rules=[(a, dict(b)) for a, b in rules], initial_condition_dict={s: (0.0 if v == -1 else v) for s, v in spd.items()})
+    # first: simulate the history's model as it stands (no explicit initialisation: whatever is stale stays stale) and the fresh one
+    # the same way  (seeded change S3_C08: create_rule leaving the model marked as initialised)
+    def _raw(Mx):
+        try:
+            res = py_simulate_model(np.linspace(0, 1.5, 4), Model=Mx, stochastic=False, return_dataframe=True)
+            return {s_: [fhex(v) for v in res[s_]] for s_ in order}
+        except Exception as e: return "EXC:" + type(e).__name__
+    raw_h, raw_f = _raw(M), _raw(fresh)
+    if raw_h != raw_f: problems.insert(0, "history dependence (simulation before any re-initialisation): %r vs built at once %r" % (str(raw_h)[:160], str(raw_f)[:160]))
     out = {"hist": _observe(M, case["seed"]), "fresh": _observe(fresh, case["seed"]), "problems": problems, "order": order}
     return out
 
 def driver_line(case, r):
     if not r or "hist" not in r: return None
     names = r["order"]
-    allnames = list(SP) + [nm for op in case["ops"] if op[0] == "rule" for nm in _rule_species(op)]
+    allnames = list(SP) + ["Lz"] + [nm for op in case["ops"] if op[0] == "rule" for nm in _rule_species(op)]
     nid = {n: i for i, n in enumerate(allnames)}
     toks = ["c08hist"]
-    ops = []
+    ops = [["sp", str(nid["Lz"])]]
     for op in case["ops"]:
         if op[0] == "reaction":
             t = op[1]; d_re, d_pr = (t[5], t[6]) if len(t) == 8 else ([], [])
@@ -172,7 +190,7 @@ def driver_line(case, r):
 def compare(case, r, out):
     if not r or "hist" not in r: return "implementation failed: %s" % json.dumps(r)[:300]
     toks = out.split(); i = toks.index("S")
-    allnames = list(SP) + [nm for op in case["ops"] if op[0] == "rule" for nm in _rule_species(op)]
+    allnames = list(SP) + ["Lz"] + [nm for op in case["ops"] if op[0] == "rule" for nm in _rule_species(op)]
     order = [allnames[int(t)] for t in toks[1:i]]
     if order != r["hist"]["order"]: return "species order: model %r implementation %r" % (order, r["hist"]["order"])
     j = toks.index("SD"); nrx = len(r["hist"]["S"][order[0]]) if order else 0
@@ -199,7 +217,7 @@ def oracle(case, r):
 def site(case, msg): return (msg or "any").split(":")[0]
 def nontrivial(case):
     ops = [o[0] for o in case["ops"]]
-    last_edit = max([i for i, o in enumerate(ops) if o in ("reaction", "create_parameter", "rule")] + [0])
+    last_edit = max([i for i, o in enumerate(ops) if o in ("reaction", "create_parameter", "rule", "rule_late")] + [0])
     return any(o in ("simulate", "initialize", "interface") for o in ops[:last_edit])
 def key(case): return json.dumps(case, sort_keys=True)
 def stats(cases):
@@ -215,6 +233,7 @@ def _valid(ops):
             if src and src not in seen: return False
             seen |= set(t[0]) | set(t[1]) | (set(t[6]) if len(t) == 8 else set())
         elif op[0] == "rule" and op[2] not in seen: return False
+        elif op[0] == "rule_late" and op[1] not in seen: return False
     return True
 def shrink(case, fails):
     from harness.shrink import shrink_list
